@@ -50,13 +50,39 @@ def programs(tier, seed=0):
                          ("assignment", "kq = A + 1", "repeated"),
                          ("additive", "C1 = A + A", "dt")):
         out.append(dict(kind="rule", rtype=rt, eq=eq, freq=freq))
+    # several delayed reactions in one model: non-empty and empty delayed parts in every order, with and without an undelayed reaction between
+    def dl(dre, dpr, fam="fixed", named=True):
+        return dict(kind="rx", ptype="massaction", reactants=["A"], products=[], named=named, delay=fam, dre=dre, dpr=dpr)
+    plain = dict(kind="rx", ptype="massaction", reactants=["B_x"], products=["C1"], named=False)
+    multi = [dict(kind="multi", parts=[dl(["B_x"], ["C1"]), dl([], ["C1", "C1"]), dl(["A"], [])]),
+             dict(kind="multi", parts=[dl([], ["C1"]), dl(["B_x"], []), dl([], [], "gamma")]),
+             dict(kind="multi", parts=[dl(["B_x"], ["C1"], "gaussian"), plain, dl([], ["C1"], "fixed", False), plain]),
+             dict(kind="multi", parts=[plain, dl(["A"], ["B_x"]), plain])]
     if tier == "quick":
         keep = [p for i, p in enumerate(out) if p["kind"] == "rule" or p.get("delay") or p["ptype"] != "massaction" or i % 2 == 0]
-        return keep
-    return out
+        return keep + multi
+    return out + multi
 
 
 def build_args(p):
+    """several reactions / rules in one model: the parts' constructor arguments merged in order (shared parameters declared once)"""
+    if p["kind"] != "multi":
+        return _build_one(p)
+    out = None
+    for q in p["parts"]:
+        a = _build_one(q)
+        if out is None:
+            out = a
+            continue
+        out["reactions"] += a["reactions"]
+        out["rules"] += a["rules"]
+        for nm, val in a["parameters"]:
+            if nm not in [x[0] for x in out["parameters"]]:
+                out["parameters"].append((nm, val))
+    return out
+
+
+def _build_one(p):
     """Model constructor arguments (concrete values) for a program"""
     species = list(SPECIES)
     params = [("kq", 0.75)]
@@ -233,7 +259,7 @@ def roundtrip_job(interp, c, case):
 def check(tier):
     ck = Check("C12", "translation_validation", tier)
     progs = programs(tier, ck.seed)
-    cs = [(p, st) for p in progs for st in ((False, True) if p["kind"] == "rx" and not p.get("delay") else (False,))]
+    cs = [(p, st) for p in progs for st in ((False, True) if p["kind"] == "multi" or (p["kind"] == "rx" and not p.get("delay")) else (False,))]
     n = 16
     k = max(1, (len(cs) + n - 1) // n)
     for i in range(0, len(cs), k):
